@@ -177,3 +177,31 @@ def c11(ctx):
     return ctx.finish(explanation="must-validate dominance for the three stream operations, classification of every encode call site, listing filter "
                       "against every *_STREAM_NAME constant, signature-removal constants, panic inventory of the stream API; injectivity of the "
                       "name packing is a universal statement about a string function and is not decided")
+
+
+@prop("C15")
+def c15(ctx):
+    from .rules import errs, flush
+    errs.run(ctx)
+    flush.flush1(ctx)
+    flush.flush2(ctx)
+    flush.close1(ctx)
+    flush.close2(ctx)
+    return ctx.finish(explanation="typestate rule flush-before-drop over every internally created container stream; error-discipline rule over all "
+                      "io::Result call sites; close-path completeness. That the bytes after Ok equal the described state is not decided")
+
+
+@prop("C01")
+def c01(ctx):
+    from .rules import flush, codec
+    flush.dirty1(ctx)
+    flush.dirty2(ctx)
+    flush.close1(ctx)
+    flush.close2(ctx)
+    codec.codec_e(ctx)
+    flush.flush1(ctx)
+    codec.cell_codec(ctx)
+    codec.pool_codec(ctx)
+    return ctx.finish(explanation="structural necessary conditions of persistence: dirty-flag discipline, finisher arming, the three close paths, the "
+                      "finisher's completeness and ordering, flush-before-drop, reader/writer symmetry of the cell and pool codecs, and the "
+                      "reader's long-string escape never being emitted for a live entry. Equality of reopened values is not decided")
